@@ -419,7 +419,9 @@ func selectWatched(msg interface{}) (got getty.Session, panicked string, blocked
 			runtime.Gosched()
 		}
 	}
-	if quiet.Spin(func() bool { return len(done) > 0 }, 3) {
+	// (twenty consecutive observations a few dozen microseconds apart: a goroutine that is only momentarily off the
+	// processor - waiting for the collector, say - does not stay that way)
+	if quiet.Settle(func() bool { return len(done) > 0 }, 20) {
 		return nil, "", true
 	}
 	r := <-done
